@@ -1,5 +1,4 @@
 import RossModel.Link
-import RossModel.Protocol
 /-!
 # Text forms of the line protocol (parsing of inputs, printing of results)
 -/
